@@ -318,7 +318,8 @@ class Gen:
             return
         name, kind, tracked = d
         if tracked:
-            if kind != "gated":
+            # only values that cannot be None: '$.variables.x.key' prints the whole dictionary when the entry is None (IMPL)
+            if kind in ("num", "txt", "bool"):
                 self.tracked.append((name, tracked))
             return
         # a variable assigned on every evaluated line before later components read it
@@ -444,7 +445,11 @@ class Gen:
         if self.AND and not self.used_onmatch and r.random() < 0.2:
             quals.append("onmatch")
             self.used_onmatch = True
-        return L.print_node(self.template(), quals=quals, uid=f"print{self.nprint}")
+        items = self.template()
+        if "once" in quals:
+            # the once-marker is keyed by the component's text: two identical print.once components share it (IMPL)
+            items.append(L.t_text(f" ({self.nprint})"))
+        return L.print_node(items, quals=quals, uid=f"print{self.nprint}")
 
     # ---- one top-level component
     def component(self):
